@@ -140,7 +140,10 @@ def _eq(a, b):
             return False
         try:
             # float tables (rates, activation energies): rounding-level differences after in-place representation changes are not differences of results
-            return bool(np.allclose(a.to_numpy(dtype=float), b.to_numpy(dtype=float), rtol=1e-9, atol=1e-300, equal_nan=True))
+            av, bv = a.to_numpy(dtype=float), b.to_numpy(dtype=float)
+            fin = np.abs(np.concatenate([av[np.isfinite(av)], bv[np.isfinite(bv)], [0.0]]))
+            # absolute tolerance relative to the scale of the table: a standard deviation that is zero up to rounding (1e-17 next to 0.05) is zero
+            return bool(np.allclose(av, bv, rtol=1e-9, atol=1e-12 * float(fin.max()), equal_nan=True))
         except (TypeError, ValueError):
             return a.equals(b)
     if isinstance(a, (tuple, list)):
